@@ -239,3 +239,31 @@ def r10_6(rep):
                           "the flag `%s` that decides whether the module is emitted is set when raw lines are pushed" % node["name"], q.loc())
             else:
                 rep.bad("module-emitted-when-raw-lines", "the module emission depends on `%s`, which ignores the module's raw lines" % a[:120], q.loc())
+
+
+@RULES.rule("R10.7", "spelled-out kinds are traced through even under an opaque pattern (shared with C09 R9.8)", floor=5)
+def r10_7(rep):
+    """With `--opaque-type '.*'` an array item's synthetic name is opaque too; if the trace stopped there the opaque element type
+    would get no blob although `[Elem; 4]` still names it."""
+    import c09
+    c09.r9_8(rep)
+
+
+@RULES.rule("R10.8", "the blob of an opaque item is built from that item's own layout", floor=2)
+def r10_8(rep):
+    """`typedef struct Quad AlignedQuad __attribute__((aligned(16)))` marked opaque must become a 16-aligned blob: the typedef's
+    own clang layout, not the layout of the type it aliases."""
+    prog = rep.prog
+    n = 0
+    for b in prog.bodies.values():
+        if not b.path.startswith("<") or "codegen::CodeGenerator>::codegen" not in b.path:
+            continue
+        for c in b.calls(lambda x: x["k"] == "MCall" and x["name"] in ("to_opaque", "try_to_opaque") and (x.get("trait") or "").startswith("codegen::")):
+            n += 1
+            recv = b.canon(c["recv"], 4)
+            extra = b.canon(c["args"][1], 4) if len(c["args"]) > 1 else ""
+            own = recv in ("param:self", "param:item") and (extra in ("param:item", "()", "lit:None") or "param:item" in extra or extra == "")
+            who = b.fact.get("impl_self", "?").split("::")[-1]
+            rep.check(own, "own-layout-blob@%s" % who, "the blob of the item being generated comes from `self`/`item` (found receiver `%s`, extra `%s`)" %
+                      (recv[:60], extra[:40]), b.loc(c))
+    rep.check(n >= 1, "to-opaque-sites", "%d blob constructions inside CodeGenerator impls" % n)
